@@ -366,18 +366,19 @@ def rule_solar_class(chk, prog):
   rule = 'C20.6-normalised-peak-is-one'
   f = prog.func(f'{RA}.get_normalized_radiation_flux')
   site, loc = f'{RA}.get_normalized_radiation_flux', floc(f)
-  v, _, _ = ev.run(f)
-  chk.require(v.k == 'call' and util.callee_name(v) == 'get_radiation_flux', f'{site}: does not return get_radiation_flux(…)')
-  b = ev.bind_args(g, list(v.a[1]), list(v.a[2]), None, None)
-  A = alg.Algebra(ev, expand_globals=False)
+  # implementation-agnostic: with everything inlined, normalised flux · (mean + variation) must be the plain flux of the same
+  # inputs (normalising the inputs or the result are the same thing; dividing by anything else — e.g. the instantaneous
+  # irradiance — is not)
+  evn = sym.Evaluator(prog)
+  vn, _, _ = evn.run(f)
+  vf, _, _ = evn.run(g)
+  A = alg.Algebra(evn, expand_globals=False)
   mean = A.name(lambda t: t == S('mean_irradiance'), 'mean', positive=True)
   var = A.name(lambda t: t == S('variation'), 'variation', nonnegative=True)
-  m_, v_ = A.conv(b['mean_irradiance']), A.conv(b['variation'])
-  chk.check(alg.equal(m_ + v_, 1) and alg.equal(m_ * var, v_ * mean), rule, f'{site}: passes mean/(mean+variation) and variation/(mean+variation): peak irradiance 1, ratio unchanged',
-            f'mean→{m_}, variation→{v_}', loc, 'sum 1, same ratio', f'{m_}, {v_}')
-  for pn in ('longitude', 'latitude'):
-    chk.check(b.get(pn) == S(pn), rule, f'{site}: forwards `{pn}` unchanged', sym.show(b.get(pn)), loc)
-  chk.check(b.get(g.param_names()[0]) == S(f.param_names()[0]), rule, f'{site}: forwards the orbital time unchanged', sym.show(b.get(g.param_names()[0])), loc)
+  # the clamp indicator (s > 0) is invariant under positive rescaling of the irradiance; both sides carry the same atom
+  lhs, rhs = A.conv(vn) * (mean + var), A.conv(vf)
+  chk.check(alg.equal(lhs, rhs), rule, f'{site}: normalised flux = flux / (mean + variation) for the same orbital time, longitude and latitude (peak irradiance 1, seasonal cycle kept)',
+            str(sp.simplify(lhs / rhs))[:160] if rhs != 0 else 'flux is 0', loc, 'flux/(mean + variation)', str(sp.simplify(lhs / rhs))[:200] if rhs != 0 else '')
   f = c.find_method('normalized')
   site, loc = f'{RA}.SolarRadiation.normalized', floc(f)
   v, _, _ = ev2.run(f)
@@ -392,7 +393,7 @@ def rule_solar_class(chk, prog):
             f'{site}: both constants are divided by the one sum taken before either is modified: peak irradiance 1, ratio unchanged', f'total→{te}, variation→{se}', loc,
             'T0/(T0+V0), V0/(T0+V0)', f'{te}, {se}')
   chk.at_least('C20.5-solar-radiation-roles', 9)
-  chk.at_least(rule, 4)
+  chk.at_least(rule, 2)
 
 
 # ------------------------------------------------------- Held–Suarez rates
@@ -506,7 +507,10 @@ def rule_hs_tendencies(chk, prog):
   c = prog.cls(f'{HS}.HeldSuarezForcing')
   f = c.find_method('explicit_terms')
   site, loc = f'{HS}.HeldSuarezForcing.explicit_terms', floc(f)
-  opaque = {f'{PE}.compute_diagnostic_state', f'{HS}.HeldSuarezForcing.kv', f'{HS}.HeldSuarezForcing.kt', f'{HS}.HeldSuarezForcing.equilibrium_temperature'} | GRID_OPS
+  # compute_diagnostic_state is inlined (whether the forcing goes through it or rebuilds the wind itself must not matter);
+  # the Grid operators, the wind inversion and the rate helpers stay opaque
+  opaque = {'spherical_harmonic.get_cos_lat_vector', f'{HS}.HeldSuarezForcing.kv', f'{HS}.HeldSuarezForcing.kt', f'{HS}.HeldSuarezForcing.equilibrium_temperature',
+            'sigma_coordinates.cumulative_sigma_integral', 'sigma_coordinates.sigma_integral'} | GRID_OPS | {'spherical_harmonic.Grid.cos_lat_grad', 'spherical_harmonic.Grid.laplacian'}
   ev = sym.Evaluator(prog, sym.Options(opaque=opaque))
   v, _, env = ev.run(f)
   me = env['self']
@@ -534,16 +538,18 @@ def rule_hs_tendencies(chk, prog):
   nod = unwrap(uv_v, 'to_modal')
   if not chk.check(nod is not None, rule, f'{site}: the velocity tendency is built on the nodal grid and transformed once', sym.show(uv_v, maxdepth=2)[:160], loc):
     return
-  aux = [t for t in sym.walk(nod) if t.k == 'attr' and t.a[1] == 'cos_lat_u']
-  chk.require(len(aux) == 1, f'{site}: nodal velocity tendency does not read aux_state.cos_lat_u exactly once')
-  u = aux[0]
-  src = u.a[0]
-  ok = src.k == 'call' and util.callee_name(src) == 'compute_diagnostic_state'
-  if ok:
-    g = prog.func(f'{PE}.compute_diagnostic_state')
-    b = ev.bind_args(g, list(src.a[1]), list(src.a[2]), None, None)
-    ok = b is not None and b.get('state') == st and b.get('coords') == Term('attr', me, 'coords')
-  chk.check(ok, rule, f'{site}: winds come from compute_diagnostic_state(state, self.coords) of the incoming state', sym.show(src, maxdepth=3)[:160], loc)
+  grid = Term('attr', Term('attr', me, 'coords'), 'horizontal')
+  winds = list({t for t in sym.walk(nod) if t.k == 'call' and util.callee_name(t) == 'to_nodal' and util.call_args(t) and util.callee_name(util.call_args(t)[0]) == 'get_cos_lat_vector'})
+  if not chk.check(len(winds) == 1, rule, f'{site}: the drag acts on one nodal wind field to_nodal(get_cos_lat_vector(…))', str([sym.show(w_, maxdepth=3)[:80] for w_ in winds]), loc):
+    return
+  u = winds[0]
+  inv = util.call_args(u)[0]
+  kw = util.call_kwargs(inv)
+  ok = kw.get('vorticity') == Term('attr', st, 'vorticity') and kw.get('divergence') == Term('attr', st, 'divergence') and kw.get('grid') == grid
+  chk.check(ok, rule, f'{site}: the wind is inverted from the vorticity and divergence of the incoming state on the equation grid', sym.show(inv, maxdepth=3)[:160], loc)
+  chk.check(kw.get('clip') == sym.FALSE, rule, f'{site}: the wind keeps the extra total wavenumber that cosθ∇ produces (clip=False), so curl / div of −kv·u/cos² '
+            'return −kv·(ζ, δ) for every retained wavenumber', f"clip={sym.show(kw['clip']) if 'clip' in kw else 'default (True)'}", loc, 'clip=False', sym.show(kw.get('clip')) if 'clip' in kw else 'default (True)')
+  src = None
   is_me_call = lambda n_: (lambda t: t.k == 'call' and util.callee_name(t) == n_ and t.a[0].k in ('bound', 'attr') and t.a[0].a[0] == me)
   A = alg.Algebra(ev, opaque=lambda t: t == u or any(is_me_call(n_)(t) for n_ in ('kv', 'kt', 'equilibrium_temperature')))
   ua = A.atom(u)
@@ -559,7 +565,7 @@ def rule_hs_tendencies(chk, prog):
   tt = fld('temperature_variation')
   nodt = unwrap(tt, 'to_modal')
   if chk.check(nodt is not None, rule, f'{site}: temperature tendency is built on the nodal grid and transformed once', sym.show(tt, maxdepth=2)[:160], loc):
-    is_tv = lambda t: t.k == 'attr' and t.a[1] == 'temperature_variation' and t.a[0] == src
+    is_tv = lambda t: t.k == 'call' and util.callee_name(t) == 'to_nodal' and util.call_args(t) == [Term('attr', st, 'temperature_variation')]
     is_ref = lambda t: t.k == 'attr' and t.a[1] == 'reference_temperature' and t.a[0] == me
     teq = [t for t in sym.walk(nodt) if is_me_call('equilibrium_temperature')(t)]
     B = alg.Algebra(ev)
